@@ -8,7 +8,7 @@
 From Coq Require Import List NArith ZArith Bool String.
 Import ListNotations.
 Require Import Codec JsonIn JsonInst JsonDoc Client Session Cli CliProofs.
-Require Import RijP1 Cipher SCipher PeerU WireProofs C08Proofs CliSplit.
+Require Import RijP1 Cipher SCipher PeerU WireProofs C08Proofs CliSplit ClientNonEmpty.
 Local Open Scope N_scope.
 
 Theorem C15_contract : forall yneg i conns, let o := fst (cli_main yneg i conns) in
@@ -110,5 +110,21 @@ Proof.
   - left. reflexivity.
 Qed.
 
+(* "never with a Go panic trace", the one index expression on the path: under -splitrequests run() calls Client.Send, which
+   returns responses[0] of SendMultiple. In the command model - for every scripted device, every segmentation and timing - a
+   successful call never yields an empty reply (a well-formed frame without messages means "go on reading"), so that index
+   exists and the split loop keeps exactly one message per request. *)
+Theorem C15_reply_nonempty : forall c ks st q st' ms,
+  ssend c ks st q = (st', Client.Ok (list message) ms) -> ms <> [] /\ List.length (firstn 1 ms) = 1%nat.
+Proof.
+  intros c ks st q st' ms H. unfold ssend in H.
+  match type of H with context [send_multiple ?a1 ?a2 ?a3 ?a4 ?a5 ?a6 ?a7 ?a8 ?a9 ?a10 ?a11 ?a12 ?a13 ?a14 ?a15 ?a16 ?a17 ?a18 q] =>
+    destruct (send_multiple a1 a2 a3 a4 a5 a6 a7 a8 a9 a10 a11 a12 a13 a14 a15 a16 a17 a18 q) as [[s' w'] r] eqn:E end.
+  injection H as _ Hr. subst r.
+  assert (N0 : ms <> []) by (exact (ClientNonEmpty.send_multiple_nonempty _ _ _ _ _ _ _ _ _ _ _ _ _ _ _ c_decode_nonempty _ _ _ _ _ _ _ E)).
+  split; [exact N0|]. destruct ms; [contradiction|reflexivity].
+Qed.
+
 Print Assumptions C15_contract. Print Assumptions C15_nothing_sent. Print Assumptions C15_unknown_output.
 Print Assumptions C15_loop_generic. Print Assumptions C15_split. Print Assumptions C15_split_document.
+Print Assumptions C15_reply_nonempty.
